@@ -254,6 +254,9 @@ func (s *Sim) setupEnv() {
 		// only matters for requests that carry "Expect: 100-continue" (raw peer)
 		e.tr.ExpectContinueTimeout = time.Hour
 		u := &url.URL{Scheme: scheme, Host: "sim.test", Path: base}
+		if cfg.Host6 && !cfg.TLS {
+			u.Host = "[fd00::2]"
+		}
 		var rt http.RoundTripper = e.tr
 		switch cfg.ProxyMode {
 		case 1:
